@@ -173,6 +173,23 @@ pub async fn raw_connect_patient(addr: SocketAddr, ca: &Path, cert: (&Path, &Pat
     Ok(conn)
 }
 
+/// a raw peer that keeps its connection alive with pings (a peer that is there, whatever it does or does not read)
+pub async fn raw_connect_keepalive(addr: SocketAddr, ca: &Path, cert: (&Path, &Path)) -> Result<quinn::Connection> {
+    let mut roots = rustls::RootCertStore::empty();
+    roots.add(&rustls::Certificate(std::fs::read(ca)?))?;
+    let mut crypto = rustls::ClientConfig::builder().with_safe_defaults().with_root_certificates(roots)
+        .with_client_auth_cert(vec![rustls::Certificate(std::fs::read(cert.0)?)], rustls::PrivateKey(std::fs::read(cert.1)?))?;
+    crypto.alpn_protocols = vec![b"hq-29".to_vec()];
+    let mut endpoint = quinn::Endpoint::client("127.0.0.1:0".parse().unwrap())?;
+    let mut cc = quinn::ClientConfig::new(Arc::new(crypto));
+    let mut tc = quinn::TransportConfig::default();
+    tc.keep_alive_interval(Some(std::time::Duration::from_secs(2)));
+    cc.transport_config(Arc::new(tc));
+    endpoint.set_default_client_config(cc);
+    let conn = endpoint.connect(addr, "localhost")?.await.context("raw connect")?;
+    Ok(conn)
+}
+
 /// a UDP relay in front of `server`: datagrams from the (one) client are forwarded to the server and back, until the
 /// returned task is aborted - from then on the client is gone without a word
 pub async fn udp_relay(server: SocketAddr) -> Result<(SocketAddr, tokio::task::JoinHandle<()>)> {
